@@ -433,3 +433,26 @@ pub fn exec_serde(m: &HashMap<String, String>) -> String {
         Err(_) => "{\"result\":\"err\"}".to_string(),
     }
 }
+
+// ---------------------------------------------------------------- HyperLogLog::add_hashed (any precision)
+pub fn exec_hll(m: &HashMap<String, String>) -> String {
+    use pdatastructs::hyperloglog::HyperLogLog;
+    let b: usize = m["b"].parse().unwrap();
+    let h: u64 = m["h"].parse().unwrap();
+    let old: u8 = m.get("old").map(|s| s.parse().unwrap()).unwrap_or(0);
+    let len = 1usize << b;
+    let j = (h & ((1u64 << b) - 1)) as usize;
+    let mut regs = vec![0u8; len];
+    regs[j] = old;
+    let mut s = HyperLogLog::<H64, IdBH>::with_registers_and_hash(b, regs, IdBH);
+    let r = std::panic::catch_unwind(std::panic::AssertUnwindSafe(|| s.add_hashed(h)));
+    let others_zero = s.registers().iter().enumerate().all(|(i, v)| i == j || *v == 0);
+    format!(
+        "{{\"result\":\"{}\",\"j\":{},\"reg_j\":{},\"others_unchanged\":{},\"len\":{}}}",
+        if r.is_ok() { "ok" } else { "panic" },
+        j,
+        s.registers()[j],
+        others_zero,
+        s.registers().len()
+    )
+}
